@@ -561,8 +561,30 @@ func (a *Adversary) twistedNV(h uint64) bool {
 	}
 	E := a.newBlock(h, a.r.Intn(3) == 0)
 	var m *interfaces.ConsensusRawMessage
-	variant := a.r.Intn(7)
+	variant := a.r.Intn(9)
 	switch {
+	case variant == 7 && lockHash == nil:
+		// no lock among the votes: the signed proposal names the hash of a block the nodes accepted earlier at this height,
+		// but another (never validated) block travels with the message
+		ps := a.proposals(h)
+		if len(ps) == 0 {
+			return false
+		}
+		old := ps[a.r.Intn(len(ps))]
+		m = a.mkNV(leader, h, v, votes, []byte(old.hash), E, v)
+	case variant == 8:
+		// a "prepared proof" for the EMPTY hash forged from VIEW_CHANGE signatures: a proof-less VIEW_CHANGE header encodes
+		// like a block reference without hash, so the votes correct members sent for an earlier Byzantine-led view serve as its PREPAREs
+		ep := a.emptyHashProof(h, v)
+		if ep == nil {
+			return false
+		}
+		for i, vt := range votes {
+			if vt.Sender.Id == leader {
+				votes[i] = a.mkVote(leader, uint64(spi.InstanceId), h, v, ep)
+			}
+		}
+		m = a.mkNV(leader, h, v, votes, nil, E, v)
 	case variant == 6: // the leader's own vote carries a spliced proof for its block: PREPREPARE ref (own signature, an earlier view it led) over genuine PREPAREs for another hash
 		sp := a.splicedProof(h, v, E)
 		if sp == nil {
@@ -790,6 +812,17 @@ func (a *Adversary) hugeView(h uint64) bool {
 	case 2:
 		a.send(b, n.Id, a.mkRefMsg(ref.EnvPP, ref.PP, b, inst, h, v, spi.HashOf(E), E))
 	case 3:
+		// a NEW_VIEW for a far-away view from the Byzantine member that really leads it (few or no votes): rejected, and must leave no trace
+		c := a.w.Comm(h)
+		for _, cand := range []uint64{v, v + 1, v + 2, v + 3, 4000, 4001, 4002, 4003, 4004, 4005, 4006} {
+			if a.w.Cfg.Byz[c.Leader(cand)] {
+				l := c.Leader(cand)
+				for _, x := range nodes {
+					a.send(l, x.Id, a.mkNV(l, h, cand, a.collectVotes(h, cand, l), spi.HashOf(E), E, cand))
+				}
+				return true
+			}
+		}
 		a.send(b, n.Id, a.mkNV(b, h, v, a.collectVotes(h, v, b), spi.HashOf(E), E, v))
 	}
 	return true
@@ -1223,4 +1256,43 @@ func (a *Adversary) corruptNested(h uint64) bool {
 		}
 	}
 	return true
+}
+
+// emptyHashProof: PREPREPARE ref {PP, h, pv, no hash} signed by the Byzantine leader of an earlier view pv, and as PREPARE
+// part the proof-less VIEW_CHANGE headers (type VIEW_CHANGE, same h and pv, no hash field) that correct members signed for pv.
+func (a *Adversary) emptyHashProof(h, v uint64) *ref.Proof {
+	c := a.w.Comm(h)
+	inst := uint64(spi.InstanceId)
+	byView := map[uint64]map[string][]byte{}
+	for _, f := range a.w.Seen {
+		m := f.Msg
+		if m == nil || m.Env != ref.EnvVC || !f.Honest || m.H != h || m.V >= v || m.Vote.Proof != nil || !a.w.Cfg.Byz[c.Leader(m.V)] {
+			continue
+		}
+		if byView[m.V] == nil {
+			byView[m.V] = map[string][]byte{}
+		}
+		byView[m.V][m.Sender.Id] = m.Sender.Sig
+	}
+	for pv, sigs := range byView {
+		leader := c.Leader(pv)
+		ids := []string{leader}
+		for id := range sigs {
+			ids = append(ids, id)
+		}
+		if !c.IsQuorum(ids) {
+			continue
+		}
+		pp := &ref.Ref{Type: ref.PP, Inst: inst, H: h, V: pv, Hash: nil}
+		pr := &ref.Ref{Type: ref.VC, Inst: inst, H: h, V: pv, Hash: nil}
+		p := &ref.Proof{PPRef: pp, PRef: pr, PPSender: &ref.Sig{Id: leader, Sig: a.sign(leader, h, pp.Bytes())}}
+		sort.Strings(ids)
+		for _, id := range ids {
+			if id != leader {
+				p.PSenders = append(p.PSenders, ref.Sig{Id: id, Sig: sigs[id]})
+			}
+		}
+		return p
+	}
+	return nil
 }
